@@ -1,17 +1,20 @@
 import LibInj.Proofs.Tables
+import LibInj.Proofs.WhitelistOK
 import LibInj.Properties.C12
+import LibInj.Properties.C01
 set_option linter.unusedSimpArgs false
 /-! # C08 — verdict and fingerprint returned by IsSQLi are mutually consistent
 
-Proved for every input: a false verdict comes with the empty fingerprint; a true verdict comes with
-a non-empty fingerprint that is blacklisted (`"0" ++ upper f` has class `F` in the regenerated
-table) and is the fingerprint of the input under one of the five contexts tried. Table facts
-(re-checked on every build): every `F` key is `0` + 1..5 class characters with the comment class
-only in last position — so the *key* that matched has the documented shape.
+**Proved for every input (`verdict_fp_consistent`, the full statement):** a false verdict comes with
+the empty fingerprint; a true verdict comes with a fingerprint of 1..5 bytes, each a documented token
+class character, that is blacklisted (`"0" ++ upper f` has class `F` in the regenerated table) and is
+the fingerprint of the input under one of the five contexts tried.
 
-Gap (`verdict_fp_consistent` is therefore labelled partial): that `f` itself (not only its
-upper-cased key) is 1..5 bytes from the class alphabet needs the invariant "every token class is a
-class character" through all lexers and `fold`; it is checked by the oracle. -/
+The alphabet clause combines the invariant "every token class in the window is 0 or a class character"
+(through all lexers, `fold` and `sqliFingerprint`: `fingerprint_ok`) with the table fact that every
+`F` key is `0` + 1..5 upper-cased class characters (`kw_wf`, re-checked on every build): a 0 byte in
+the fingerprint would put a 0 byte into the key. `blacklisted_key_shape` additionally records that the
+comment class occurs only in last position of a blacklisted key. -/
 namespace LibInj.Properties.C08
 open LibInj LibInj.Sqli LibInj.Tables LibInj.Properties.C12
 
@@ -70,7 +73,7 @@ theorem step_ok (p : M (Bool × Bytes × Bool)) (k : Bool × Bytes × Bool → M
       simp only [Bool.false_eq_true, ↓reduceIte] at h
       exact Or.inr ⟨_, h⟩
 
-/-- **C08 (partial, see the module comment).** -/
+/-- verdict/fingerprint relation without the alphabet clause -/
 theorem verdict_fp_consistent_partial (s : Bytes) (b : Bool) (f : Bytes) (h : isSQLi s = .ok (b, f)) :
     (b = false → f = []) ∧
     (b = true → Blacklisted f ∧ ∃ F ∈ contexts, ∃ st, fingerprint s F = .ok st ∧ st.fingerprint = f) := by
@@ -122,6 +125,113 @@ theorem blacklisted_key_shape (l n : Nat) (h : lookupKw l n = some 70) :
   · rcases h2 with h2 | h2
     · simp [e70] at h2
     · exact ⟨hfp.1.1, hfp.1.2, hfp.2, h2⟩
+
+theorem keyNat_snoc (w : Bytes) (c : UInt8) : keyNat (w ++ [c]) = keyNat w * 256 + c.toNat := by
+  simp [keyNat, List.foldl_append]
+
+theorem fpBytes_keyNat_rev : ∀ (r : Bytes), fpBytes r.length (keyNat (48 :: r.reverse)) = true →
+    ∀ u ∈ r, isClassUpper u.toNat = true
+  | [], _, u, hu => by cases hu
+  | c :: r', h, u, hu => by
+    have hc : c.toNat < 256 := c.toNat_lt
+    have e : (48 : UInt8) :: (c :: r').reverse = (48 :: r'.reverse) ++ [c] := by simp
+    rw [e, keyNat_snoc] at h
+    simp only [List.length_cons, fpBytes, Bool.and_eq_true] at h
+    have e1 : (keyNat (48 :: r'.reverse) * 256 + c.toNat) % 256 = c.toNat := by omega
+    have e2 : (keyNat (48 :: r'.reverse) * 256 + c.toNat) / 256 = keyNat (48 :: r'.reverse) := by omega
+    rw [e1, e2] at h
+    rcases List.mem_cons.mp hu with rfl | hu
+    · exact h.1
+    · exact fpBytes_keyNat_rev r' h.2 u hu
+
+theorem fpBytes_keyNat (us : Bytes) (h : fpBytes us.length (keyNat (48 :: us)) = true) :
+    ∀ u ∈ us, isClassUpper u.toNat = true := by
+  have := fpBytes_keyNat_rev us.reverse (by simpa using h)
+  intro u hu
+  exact this u (by simpa using hu)
+
+/-- a class byte (or 0) whose upper-case image is an upper-cased class character is a class byte -/
+theorem class_of_upper (c : UInt8) (h : c = 0 ∨ isClassU8 c = true) (hu : isClassUpper (upperAscii c).toNat = true) :
+    isClassU8 c = true := by
+  have := forall_byte (fun c => !((c == 0 || isClassU8 c) && isClassUpper (upperAscii c).toNat) || isClassU8 c)
+    (by decide +kernel) c
+  have hc : (c == 0 || isClassU8 c) = true := by
+    rcases h with h | h <;> simp [h]
+  simpa [hc, hu] using this
+
+/-- **a blacklisted fingerprint over class-or-0 bytes has 1..5 bytes, all class characters** -/
+theorem blacklisted_alphabet (fp : Bytes) (hcls : ∀ c ∈ fp, c = 0 ∨ isClassU8 c = true)
+    (hb : searchKeyword (fpKey fp) = 70) :
+    1 ≤ fp.length ∧ fp.length ≤ 5 ∧ ∀ c ∈ fp, isClassU8 c = true := by
+  have hg : goUpper (fpKey fp) = 48 :: fp.map upperAscii := by
+    unfold fpKey
+    rw [goUpper_plain]
+    · simp only [List.map_cons, List.map_map]
+      congr 1
+      apply List.map_congr_left
+      intro c hc
+      exact (class_upper c (hcls c hc)).2.2
+    · intro x hx
+      rcases List.mem_cons.mp hx with rfl | hx
+      · decide
+      · obtain ⟨c, hc, rfl⟩ := List.mem_map.mp hx
+        exact ⟨(class_upper c (hcls c hc)).1, (class_upper c (hcls c hc)).2.1⟩
+  unfold searchKeyword at hb
+  simp only [hg] at hb
+  cases hl : lookupKw ((48 : UInt8) :: fp.map upperAscii).length (keyNat (48 :: fp.map upperAscii)) with
+  | none => rw [hl] at hb; simp at hb
+  | some v =>
+    rw [hl] at hb
+    simp only [] at hb
+    have hm := lookupIn_some_mem _ _ _ _ hl
+    have hv := List.all_eq_true.mp keywords_valOK _ hm
+    simp only [valOK, Bool.and_eq_true, Nat.blt_eq] at hv
+    have hv128 : v < 128 := hv.1.1.1
+    have hv70 : v = 70 := by
+      have := congrArg UInt8.toNat hb
+      simp at this
+      omega
+    subst hv70
+    obtain ⟨k1, k2, k3, _⟩ := blacklisted_key_shape _ _ hl
+    simp only [List.length_cons, List.length_map] at k1 k2 k3
+    refine ⟨by omega, by omega, ?_⟩
+    have hk : fpBytes (fp.map upperAscii).length (keyNat (48 :: fp.map upperAscii)) = true := by
+      simpa using k3
+    intro c hc
+    exact class_of_upper c (hcls c hc) (fpBytes_keyNat _ hk (upperAscii c) (List.mem_map.mpr ⟨c, hc, rfl⟩))
+
+/-- the bytes of a computed fingerprint are class characters or 0 -/
+theorem fingerprint_classes (s : Bytes) (F : Nat) (st : State) (h : fingerprint s F = .ok st) :
+    ∀ c ∈ st.fingerprint, c = 0 ∨ isClassU8 c = true := by
+  obtain ⟨st', h', _, hfp⟩ := fingerprint_ok s F
+  rw [h] at h'
+  cases h'
+  rcases hfp with hX | ⟨hw, n, _, hfpn, _⟩
+  · intro c hc; rw [hX] at hc
+    have : c = 88 := by simpa using hc
+    rw [this]; right; decide
+  · intro c hc
+    rw [hfpn] at hc
+    obtain ⟨t, ht, rfl⟩ := List.mem_map.mp hc
+    exact (hw.2 t (List.mem_of_mem_take ht)).2
+
+/-- **C08, full statement.** -/
+theorem verdict_fp_consistent (s : Bytes) (b : Bool) (f : Bytes) (h : isSQLi s = .ok (b, f)) :
+    (b = false → f = []) ∧
+    (b = true → Blacklisted f ∧ 1 ≤ f.length ∧ f.length ≤ 5 ∧ (∀ c ∈ f, isClassU8 c = true) ∧
+      ∃ F ∈ contexts, ∃ st, fingerprint s F = .ok st ∧ st.fingerprint = f) := by
+  obtain ⟨h1, h2⟩ := verdict_fp_consistent_partial s b f h
+  refine ⟨h1, fun hb => ?_⟩
+  obtain ⟨hbl, F, hF, st, hst, hfp⟩ := h2 hb
+  have hcls := fingerprint_classes s F st hst
+  rw [hfp] at hcls
+  obtain ⟨a1, a2, a3⟩ := blacklisted_alphabet f hcls hbl.2
+  exact ⟨hbl, a1, a2, a3, F, hF, st, hst, hfp⟩
+
+/-- the verdict exists for every input (C01), so the statement above is never vacuous -/
+theorem verdict_exists (s : Bytes) : ∃ b f, isSQLi s = .ok (b, f) := by
+  obtain ⟨r, hr⟩ := LibInj.Properties.C01.isSQLi_total s
+  exact ⟨r.1, r.2, hr⟩
 
 /-- non-vacuity: the classic `s&1` is blacklisted in the regenerated table -/
 example : lookupKw 4 0x30532631 = some 70 := by decide +kernel
